@@ -313,7 +313,11 @@ def r17_3(rep, M, rid):
         full = any(isinstance(x, ast.Call) and isinstance(x.func, ast.Name) and x.func.id == "range" and x.args
                    and norm(x.args[-1]) == "len(self.atoms)" and len(x.args) == 1 for e in sl["exprs"] for x in ast.walk(e))
         basis = any(basis_call(e) for e in sl["exprs"])
-        if diff and full and basis:
+        # exactly one difference, whose right operand is the basis set and nothing else: outliers = ALL \\ BASIS
+        other_sets = [x for e in sl["exprs"] for x in ast.walk(e) if isinstance(x, ast.Call) and isinstance(x.func, ast.Attribute)
+                      and x.func.attr in ("values", "substitutions", "vacancies", "union", "update", "intersection")]
+        other_attrs = [x for e in sl["exprs"] for x in ast.walk(e) if isinstance(x, ast.Attribute) and x.attr in ("substitutions", "vacancies")]
+        if diff and full and basis and len(diff) == 1 and not other_sets and not other_attrs:
             ok = True
     if ok:
         rep.ok(rid, "outliers = range(len(atoms)) minus the same basis indices")
